@@ -43,6 +43,9 @@ type StandinResult struct {
 var standinFailRe = regexp.MustCompile(`^STANDIN-FAIL (\S+) class=(\S+) (.*)$`)
 var standinSumRe = regexp.MustCompile(`^STANDIN (\S+) evaluations=(\d+) failures=(\d+)`)
 
+// standinTier is handed to the stand-in tests (VERIF_TIER): "thorough" widens their bounds.
+var standinTier = "quick"
+
 func runStandins(repo, vd, prop, tmp string, known *KnownFile) []*StandinResult {
 	var all []Standin
 	if err := loadJSON(filepath.Join(vd, "standins", "standins.json"), &all); err != nil {
@@ -64,7 +67,7 @@ func runStandins(repo, vd, prop, tmp string, known *KnownFile) []*StandinResult 
 		ctx, cancel := context.WithTimeout(context.Background(), 300*time.Second)
 		cmd := exec.CommandContext(ctx, "go", "test", "-overlay", ovFile, "-vet=off", "-count=1", "-timeout", "280s", "-run", s.Run, "-v", "./"+s.PackageDir)
 		cmd.Dir = repo
-		cmd.Env = append(os.Environ(), "GOFLAGS=-mod=mod", "GOPROXY=off", "GOSUMDB=off", "GOTOOLCHAIN=local")
+		cmd.Env = append(os.Environ(), "GOFLAGS=-mod=mod", "GOPROXY=off", "GOSUMDB=off", "GOTOOLCHAIN=local", "VERIF_TIER="+standinTier)
 		var buf bytes.Buffer
 		cmd.Stdout = &buf
 		cmd.Stderr = &buf
